@@ -66,6 +66,8 @@ def translate(repo):
     cb = [u(x) for x in strip_doc(find_func(cls, "_seq_request_callback").body)]
     items.append(typed("callback_is_popped", "bool", coq_bool(cb[0] == "_callback = self._request_callbacks.pop(seq, None)")))
     ar_ = [u(x) for x in strip_doc(find_func(cls, "_async_request").body)]
+    if ar_ and ar_[0] == "if self._channel.closed:\n    raise EOFError('connection closed')":
+        ar_ = ar_[1:]          # refusing a closed channel up front (repaired tree) changes nothing in the order seq / register / send
     items.append(typed("register_before_send", "bool", coq_bool(
         ar_[0] == "seq = self._get_seq_id()" and ar_[1] == "self._request_callbacks[seq] = callback" and ar_[2].startswith("try:\n    self._send(consts.MSG_REQUEST, seq,"))))
     gs = [u(x) for x in strip_doc(find_func(cls, "_get_seq_id").body)]
